@@ -7,6 +7,8 @@
 //! (`gvcf::bcfraw`: framing, dictionaries from the embedded header text, typed values, padding);
 //! noodles' eager reader; the lazy `bcf::Record` accessors; VCF text renderings.
 
+mod rewrite;
+
 use std::sync::Mutex;
 
 use gvcf::{
@@ -973,6 +975,66 @@ fn main() {
                 "accepted_by_this_writer_not_judged": not_rejected.lock().unwrap().iter().cloned().collect::<Vec<_>>(),
             }),
         );
+
+        // (7) keyed lookups: keys that are substrings / prefixes / suffixes of earlier keys and values
+        ctx.rule(
+            "keyed lookups: gvcf::keyed documents (every ordered pair and triple of 12 INFO keys and of 9 FORMAT keys whose \
+             names are fragments of one another and of earlier values, full sets in every rotation) x fileformat {4.3, 4.5}: \
+             lazy get(key) / select(key) / get_index == iter, absent fragments are not found, all stages of the per-record check",
+        );
+        let key_docs = gvcf::keyed::documents();
+        let key_envs: Vec<Env> = [(4u32, 3u32), (4, 5)].iter().map(|&ff| Env::from_hdr(gvcf::keyed::keyed_header(ff), Purpose::Bcf)).collect();
+        let n_docs = key_docs.len() as u64;
+        ctx.sweep(
+            "bcf_keyed_lookup",
+            n_docs * key_envs.len() as u64,
+            |i| format!("fileformat={:?} header=gvcf::keyed::keyed_header record {} = {}", key_envs[(i / n_docs) as usize].ff, key_docs[(i % n_docs) as usize].0, key_docs[(i % n_docs) as usize].1.show()),
+            |i| {
+                let env = &key_envs[(i / n_docs) as usize];
+                let (label, rec) = &key_docs[(i % n_docs) as usize];
+                let g = Generated { rec: rec.clone(), expect: Expect::Exact, shapes: vec![] };
+                let dec = || format!("record {label} = {}", rec.show());
+                check_bcf(&QuietTag, env, &g, &dec).map_err(|mut v| {
+                    v.fingerprint = format!("family=keyed-lookup column={} {}", label.split('[').next().unwrap_or("?").split('-').next().unwrap_or("?"), v.fingerprint);
+                    v
+                })
+            },
+        );
+        ctx.add_distinct(n_docs * key_envs.len() as u64, n_docs * key_envs.len() as u64);
+
+        // (8) foreign header layouts through a rewrite
+        ctx.rule(
+            "foreign header layouts through a rewrite: hand-rendered headers (4 line orders: canonical, interleaved kinds, \
+             kinds reversed, contig between INFO lines with FORMAT first) x IDX {none, partial, permuted, natural} x explicit \
+             PASS line {absent, middle, last} x source {VCF text, BCF whose record bytes carry the dictionary the text implies} \
+             x via {eager RecordBuf, lazy record} x header {as read, edited: unused INFO removed + new INFO in front}: read, \
+             write BCF with the reader's header object, read back (reused / fresh / lazy) and decode with bcfraw under the \
+             header text actually written: names and values are those of the source",
+        );
+        let rw_sources = rewrite::sources();
+        let n_rw = rw_sources.len() as u64 * 8;
+        ctx.sweep(
+            "foreign_header_rewrite",
+            n_rw,
+            |i| {
+                let s = &rw_sources[(i / 8) as usize];
+                let k = i % 8;
+                format!(
+                    "{} source={} via={} header={} ; header text: {:?} ; records: gvcf::foreign::records()",
+                    s.name,
+                    rewrite::SRC_KINDS[(k & 1) as usize],
+                    rewrite::VIAS[((k >> 1) & 1) as usize],
+                    if k >> 2 == 1 { "edited" } else { "as-read" },
+                    s.text
+                )
+            },
+            |i| {
+                let s = &rw_sources[(i / 8) as usize];
+                let k = i % 8;
+                rewrite::run(s, (k & 1) as usize, ((k >> 1) & 1) as usize, k >> 2 == 1)
+            },
+        );
+        ctx.add_distinct(n_rw, n_rw);
 
         let st = stats.lock().unwrap();
         let accepted: u64 = st.iter().filter(|(k, _)| k.ends_with("writer-accepted")).map(|x| *x.1).sum();
